@@ -9,6 +9,7 @@ import AsModel.Runtime.Label
 import AsModel.Runtime.Cache
 import AsModel.SExp
 import AsModel.Render
+import AsModel.Temporaries
 import AsModel.RustPrims
 import AsModel.Exec
 import AsModel.WiringResolve
@@ -214,6 +215,21 @@ def answer (line : String) : String :=
   | ["resolve", d, r] =>
     let c := AsModel.Generated.resolve AsModel.Generated.wiring ⟨d == "1", r == "1"⟩
     s!"runtime={c.runtimeRegex} macro={c.macroRegex}"
+  -- dangles <let | match | string | set | string-pinned | set-pinned> <steps: p (place) v (call by value) b (borrowing call), dot-separated>
+  | ["dangles", hold, steps] =>
+    let h : Option AsModel.Hold := match hold with
+      | "let" => some .letRef
+      | "match" => some .statement
+      | "string" => some (AsModel.Code.string default default default "" default).hold
+      | "set" => some (AsModel.Code.set default .nil false 0).hold
+      | "string-pinned" => some (AsModel.Code.string default default default "" default).holdPinned
+      | "set-pinned" => some (AsModel.Code.set default .nil false 0).holdPinned
+      | _ => none
+    let st : Option (List AsModel.Step) := (steps.splitOn ".").filter (· ≠ "") |>.mapM fun
+      | "p" => some .place | "v" => some .callValue | "b" => some .callBorrow | _ => none
+    match h, st with
+    | some h, some st => toString (AsModel.dangles h st)
+    | _, _ => "bad-op"
   | ["abspath", m, f] =>
     match unhex m, unhex f with
     | some m, some f => hex (absoluteSourcePath m f)
